@@ -39,7 +39,8 @@ RULE = (
 )
 ASSUMPTIONS = [
     "USE_JIT off (library runs as plain Python, globals and torch.rand can be interposed)",
-    "float32 features; caps accept floor(len*prop) under float32, float64 and decimal readings of the product",
+    "float32 features (float64, and float16 with lengths beyond 2048, for configurations without a warp); caps "
+    "accept floor(len*prop) under float32, float64 and decimal readings of the product",
     "range clause judged against the whole batch row (padding frames included) with rel. tolerance 1e-5",
     "monotone / end-point clauses judged on the time grid in pixel units with 1e-3 px slack",
     "grid_sample (PyTorch) is trusted to read where the grid says",
@@ -50,7 +51,7 @@ BUDGET = {
 }
 CLASSES = [
     "all_on", "zero_combo", "prop0", "prop1", "big_warp", "tiny", "long_T", "order23",
-    "mask_only", "native_rng", "frac_caps", "handset", "no_lengths", "warp_only",
+    "mask_only", "native_rng", "frac_caps", "handset", "no_lengths", "warp_only", "half_precision",
 ]
 SCRIPT_KINDS = ["zero", "max", "half", "extremes", "mixed", "uniform", "ext4"]
 FLOORS = {
@@ -115,6 +116,10 @@ def _sizes(rng, tier, cls):
     if cls == "long_T":
         T = rng.choice([200, 257, 400, 640, 1000] if big else [200, 257, 400, 1000])
         return rng.randint(1, 2), T, rng.randint(1, 3)
+    if cls == "half_precision":
+        # float16 features (masks only): lengths beyond 2048 are not all representable in the features' own type
+        T = rng.choice([rng.randint(1, 40), rng.randint(2049, 2200), 2051, 2055, 4095, 3003])
+        return rng.randint(1, 2), T, rng.randint(1, 2)
     r = rng.random()
     if r < 0.6:
         T = rng.randint(1, 12)
@@ -131,6 +136,10 @@ def _lengths(rng, N, T, cls):
         return None
     if cls == "tiny" and rng.random() < 0.5:
         return [1] * N
+    if cls == "half_precision":
+        if rng.random() < 0.3:
+            return None
+        return [rng.choice([T, T, T - 1, max(1, T - 4), rng.randint(1, T)]) for _ in range(N)]
     out = []
     for _ in range(N):
         r = rng.random()
@@ -174,6 +183,13 @@ def _cfg(rng, T, F, cls):
     elif cls == "order23":
         c["interpolation_order"] = rng.choice([2, 3])
         c["max_freq_warp"] = rng.choice([0.0, 0.5, 1.0, float(F)])
+    elif cls == "half_precision":
+        c["max_time_warp"] = 0.0
+        c["max_freq_warp"] = 0.0
+        c["max_time_mask"] = rng.choice([1, 3, 100])
+        c["num_time_mask"] = rng.choice([2, 10, 20])
+        c["max_time_mask_proportion"] = rng.choice([0.04, 0.5, 1.0])
+        c["num_time_mask_proportion"] = rng.choice([0.04, 0.5, 1.0])
     elif cls == "mask_only":
         c["max_time_warp"] = 0.0
         c["max_freq_warp"] = 0.0
@@ -411,6 +427,8 @@ def _feats(case):
     if not cfg["max_time_warp"] and not cfg["max_freq_warp"] and int(case["feat_seed"]) % 3 == 0 \
             and not case.get("handset"):
         x = x.double() * (1.0 + 2.0 ** -40)  # values that are NOT representable in single precision
+    if case["class"] == "half_precision":
+        x = x.clamp(-6e4, 6e4).half()
     return x
 
 
@@ -565,7 +583,7 @@ def _masks(case, params, lens):
 def _bits(x):
     import torch
 
-    return x.contiguous().view(torch.int64 if x.dtype == torch.float64 else torch.int32)
+    return x.contiguous().view({torch.float64: torch.int64, torch.float16: torch.int16}.get(x.dtype, torch.int32))
 
 
 def _judge_grid_rows(mon, st, which, grid, src, flow, lens, T, order):
